@@ -157,7 +157,7 @@ namespace rvutils::pbo
                 }
                 remaining = remaining < bytes ? remaining : bytes;
                 m_file.read(arr, remaining);
-                return (size_t)remaining;
+                return (size_t)m_file.gcount();
             }
             std::streampos tell()
             {
@@ -419,14 +419,14 @@ namespace rvutils::pbo
             const size_t buff_size = 256;
             char buff[buff_size];
             auto start_pos = file.tellg();
-            file.seekg(0, std::ios::end);;
-            auto eof = file.tellg();
-            file.seekg(start_pos);
             int runs = 0;
+            size_t got = 0;
             do
             {
                 file.read(buff, buff_size);
-                for (size_t i = 0; i < buff_size; i++)
+                // Only the bytes actually read may be looked at
+                got = (size_t)file.gcount();
+                for (size_t i = 0; i < got; i++)
                 {
                     if (buff[i] == '\0')
                     {
@@ -436,7 +436,8 @@ namespace rvutils::pbo
                     }
                 }
                 runs++;
-            } while (file.tellg() < eof && !file.eof());
+            } while (got == buff_size);
+            file.clear();
             file.seekg(start_pos);
             return -1;
         }
@@ -530,6 +531,12 @@ namespace rvutils::pbo
 
             // read in the whole data available into helper struct
             file.read(reinterpret_cast<char*>(&data_mapped), sizeof(header::bin));
+            if ((size_t)file.gcount() != sizeof(header::bin))
+            { // header is cut off
+                file.clear();
+                file.seekg(start_pos);
+                return {};
+            }
             file.clear();
 
 
@@ -1219,6 +1226,11 @@ namespace rvutils::pbo
             {
                 m_headers.push_back(*opt_header);
             }
+            if (!opt_header.has_value())
+            { // header table is cut off
+                m_good = false;
+                return;
+            }
             m_headers.push_back(*opt_header);
 #if _DEBUG
             DBG_POS = file.tellg();
@@ -1232,6 +1244,15 @@ namespace rvutils::pbo
                 it.block_data.start = offset;
                 offset += it.size;
                 it.block_data.end = offset;
+            }
+
+            // The data of every entry has to lie inside of the file
+            file.clear();
+            file.seekg(0, std::ios::end);
+            if (offset > file.tellg())
+            {
+                m_good = false;
+                return;
             }
 
             // All fine here, end processing.
